@@ -42,7 +42,7 @@ structure Image where
   w : Int
   h : Int
   calls : List Rect
-  deriving Repr
+  deriving Repr, DecidableEq
 
 /-- `BitMatrix.Get(x, y)` of the result (black = true); outside the matrix: false -/
 def Image.px (img : Image) (x y : Int) : Bool :=
